@@ -23,7 +23,8 @@ CONFIG_SENSITIVE = True
 HERE = os.path.dirname(os.path.abspath(__file__))
 PANICKING_LAST = {"unwrap", "expect", "unwrap_err", "expect_err", "index", "index_mut", "split_at", "split_at_mut", "split_off", "remove", "swap_remove", "drain",
                   "truncate", "windows", "chunks", "chunks_exact", "copy_from_slice", "step_by", "borrow", "borrow_mut", "abs", "pow", "from_digit", "swap", "rotate_left", "rotate_right",
-                  "unwrap_unchecked", "get_unchecked", "from_utf8_unchecked", "insert_str", "replace_range", "split_first", "repeat"}
+                  "unwrap_unchecked", "get_unchecked", "from_utf8_unchecked", "insert_str", "replace_range", "repeat",
+                  "with_capacity", "reserve", "reserve_exact", "resize", "set_len", "from_raw_parts", "assume_init", "transmute", "unreachable_unchecked", "exit", "abort"}
 MAP_OK = ("HashMap", "IndexMap", "BTreeMap", "HashSet", "BTreeSet", "hash_map", "btree_map", "indexmap", "VacantEntry", "OccupiedEntry")
 FINITE_ITERS = ("std::slice::Iter", "std::slice::IterMut", "std::str::Chars", "std::str::CharIndices", "std::str::Bytes", "std::str::Split", "std::str::RSplit", "std::str::SplitN", "std::str::RSplitN",
                 "std::str::SplitTerminator", "std::str::Lines", "std::str::MatchIndices", "std::str::SplitWhitespace", "std::ops::Range<usize>", "std::iter::Rev<", "std::iter::Enumerate<",
@@ -179,6 +180,8 @@ def discharge(ctx, body, p, ev, kind):
                 if isinstance(at, tuple) and at[0] == "binop" and at[1] == "Add" and (const_int(at[3]) or 0) >= k:
                     return "G3-prefix-of-length-n+k"
         return None
+    if kind in ("assert:DivisionByZero", "assert:RemainderByZero"):
+        return None   # the divisor is the assert's operand; a constant non-zero divisor produces no assert at all
     if kind == "assert:BoundsCheck":
         ln, ix = ev.mops
         coll = ln[2] if isinstance(ln, tuple) and ln[0] == "unop" else ln
@@ -205,12 +208,25 @@ def discharge(ctx, body, p, ev, kind):
                     return "G2-checked-some"
                 if t == ("discr", x) and c.fact == ("eq", 1):
                     return "G2-checked-some"
+            # first element of a collection shown non-empty on this path: v.first()/last()/iter().next()/chars().next()
+            if is_call(x, "::first", "::last", "::next", "::next_back", "::pop"):
+                src = strip_refs(call_args(x)[0])
+                while is_call(src, "::iter", "::chars", "::bytes", "::as_bytes", "::as_str", "::deref") or (isinstance(src, tuple) and src[0] == "loc"):
+                    src = strip_refs(call_args(src)[0]) if is_call(src) else strip_refs(src[2]) if len(src) > 2 else src
+                    if not isinstance(src, tuple):
+                        break
+                if isinstance(src, tuple) and len_gt(p, bb, src, 0):
+                    return "G3-element-of-nonempty"
             return None
         if (last == "index" and "Vec" in nm and not agg_variant(ev.args[1])) or (last == "index" and "[T]" in nm and const_int(ev.args[1]) is not None):
             coll, ix = ev.args[0], ev.args[1]
             k = const_int(ix)
             if k is not None:
                 return "G1-length-fixed" if len_gt(p, bb, coll, k) else None
+            ixs = strip_refs(ix)
+            if isinstance(ixs, tuple) and ixs[0] == "binop" and ixs[1] == "Sub" and const_int(ixs[3]) == 1 and is_call(strip_refs(ixs[2]), "::len") \
+                    and strip_refs(call_args(strip_refs(ixs[2]))[0]) == strip_refs(coll) and len_gt(p, bb, coll, 0):
+                return "G3-last-of-nonempty"
             ri = range_item(ix)
             if ri is not None:
                 lo, hi = ri
@@ -253,6 +269,14 @@ def discharge(ctx, body, p, ev, kind):
             sp_ = search_pos(at)
             if sp_ and sp_[0] == s and sp_[1] is not None and sp_[1].isascii() and sp_[2] in (0, len(sp_[1])):
                 return "G6-split-at-search-result"
+            return None
+        if last in ("with_capacity", "reserve", "reserve_exact", "repeat", "resize"):
+            n_ = ev.args[-1] if last in ("with_capacity", "repeat") else ev.args[1]
+            k = const_int(n_)
+            if k is not None and k <= 1 << 20:
+                return "G7-small-constant-capacity"
+            if is_call(strip_refs(n_), "::len", "::count") or (isinstance(strip_refs(n_), tuple) and strip_refs(n_)[0] == "binop" and bounded_size(n_)):
+                return "G5-capacity-from-a-length"
             return None
         if last in ("windows", "chunks", "chunks_exact", "step_by"):
             k = const_int(ev.args[1])
